@@ -965,8 +965,9 @@ pub fn generate_op_fastpath(rng: &mut Rng, n: usize, _tier: &str) -> Vec<String>
         let reprs: Vec<T> = vec![atom(&[]), atom(&[0]), atom(&[5]), atom(&[0, 5]), atom(&[0xfb]), atom(&[0xff, 0xfb]), atom(&[0, 0x80]),
                                  atom(&[1, 2, 3, 4, 5, 6]), atom(&[0x80, 0, 0, 0, 0, 1])];
         for name in ["op_add", "op_subtract", "op_multiply", "op_div", "op_divmod", "op_mod", "op_gr", "op_gr_bytes", "op_eq", "op_logand",
-                     "op_logior", "op_logxor", "op_concat", "op_sha256", "op_any", "op_all", "op_ash", "op_lsh", "op_lognot", "op_not", "op_strlen"] {
+                     "op_logior", "op_logxor", "op_concat", "op_sha256", "op_any", "op_all", "op_ash", "op_lsh", "op_lognot", "op_not", "op_strlen", "op_if"] {
             let arities: &[usize] = match name {
+                "op_if" => &[3],
                 "op_lognot" | "op_not" | "op_strlen" => &[1],
                 "op_div" | "op_divmod" | "op_mod" | "op_gr" | "op_gr_bytes" | "op_eq" | "op_ash" | "op_lsh" => &[2],
                 _ => &[1, 2, 3],
@@ -996,6 +997,34 @@ pub fn generate_op_fastpath(rng: &mut Rng, n: usize, _tier: &str) -> Vec<String>
         out.push(format!("OP f{} {} {:x} {} {}", id, name, flags, 100_000_000_000u64, trees::to_hex(&T::list(args))));
         id += 1;
     };
+    // results at the machine-word boundaries (a quotient, remainder or power that is exactly 2^31, 2^32,
+    // 2^63, 2^64 or next to them, of either sign): result allocation has word-sized fast paths of its own
+    {
+        let mut words: Vec<i128> = vec![];
+        for k in [7u32, 8, 15, 16, 25, 26, 31, 32, 63, 64, 65] {
+            for d in [-1i128, 0, 1] {
+                words.push((1i128 << k) + d);
+                words.push(-((1i128 << k) + d));
+            }
+        }
+        for flags in [0u32, 0x1000, 0x2000, 0x3000] {
+            for &v in &words {
+                for d in [3i128, -3, 255] {
+                    push("op_div", flags, vec![int(v * d), int(d)]);
+                    push("op_divmod", flags, vec![int(v * d + d.signum()), int(d)]);
+                }
+                let m = v.abs() + 7;
+                push("op_mod", flags, vec![int(v), int(if v < 0 { -m } else { m })]);
+                push("op_divmod", flags, vec![int(v), int(if v < 0 { -m } else { m })]);
+                push("op_modpow", flags, vec![int(v), int(1), int(if v < 0 { -m } else { m })]);
+                push("op_multiply", flags, vec![int(v), int(1)]);
+                push("op_add", flags, vec![int(v - 1), int(1)]);
+                push("op_subtract", flags, vec![int(v + 1), int(1)]);
+                push("op_lognot", flags, vec![int(-v - 1)]);
+                push("op_ash", flags, vec![int(v * 2), int(-1)]);
+            }
+        }
+    }
     for name in ["op_gr", "op_logand", "op_logior", "op_logxor", "op_lognot", "op_ash", "op_lsh", "op_div", "op_divmod", "op_mod"] {
         for flags in [0u32, 0x2000] {
             for _ in 0..n.max(20) {
